@@ -141,6 +141,12 @@ func refsOf(e *Entity, rk string) []Ref {
 
 func tyName(n string) string { return "%" + n }
 
+// directBA: a global whose only initialiser reference is one blockaddress is that constant itself
+// (constants are uniqued: the blockaddress then has one use per such global).
+func directBA(e *Entity) bool {
+	return len(refsOf(e, "l.baddr")) == 1 && len(refsOf(e, "g.init")) == 0 && len(refsOf(e, "ty.global")) == 0
+}
+
 func gname(key string) string {
 	if strings.HasPrefix(key, "@") {
 		return key
@@ -166,6 +172,12 @@ func attrID(n string) string {
 func (r *renderer) contentType(e *Entity) string {
 	if t := refsOf(e, "ty.global"); len(t) > 0 {
 		return tyName(t[0].To) + "*"
+	}
+	if len(refsOf(e, "g.cmp")) > 0 {
+		return "i1"
+	}
+	if directBA(e) {
+		return "i8*"
 	}
 	if r.direct(e) {
 		return r.ptrType(refsOf(e, "g.init")[0].To)
@@ -202,6 +214,9 @@ func (r *renderer) ptrType(key string) string {
 	}
 	switch e.K {
 	case "global":
+		if e.Body == "as1" {
+			return r.contentType(e) + " addrspace(1)*"
+		}
 		return r.contentType(e) + "*"
 	case "alias":
 		return "i8*"
@@ -257,7 +272,13 @@ func Render(src []Entity) string {
 		case "global":
 			ct := r.contentType(e)
 			var init string
-			if r.direct(e) {
+			if directBA(e) {
+				x := refsOf(e, "l.baddr")[0]
+				init = fmt.Sprintf("blockaddress(%s, %%%s)", gname(x.To), x.Aux)
+			} else if c := refsOf(e, "g.cmp"); len(c) > 0 {
+				pt := r.ptrType(c[0].To)
+				init = fmt.Sprintf("icmp eq (%s %s, %s null)", pt, gname(c[0].To), pt)
+			} else if r.direct(e) {
 				init = gname(refsOf(e, "g.init")[0].To)
 			} else if len(refsOf(e, "ty.global")) > 0 || ct == "i8*" {
 				init = "null"
@@ -273,14 +294,22 @@ func Render(src []Entity) string {
 				}
 				init = "[" + strings.Join(elems, ", ") + "]"
 			}
-			fmt.Fprintf(&sb, "%s = global %s %s", gname(key), ct, init)
+			as := ""
+			if e.Body == "as1" {
+				as = "addrspace(1) "
+			}
+			fmt.Fprintf(&sb, "%s = %sglobal %s %s", gname(key), as, ct, init)
 			for _, x := range refsOf(e, "c.global") {
 				fmt.Fprintf(&sb, ", comdat($%s)", x.To)
 			}
 			sb.WriteString(r.mdAttach(e.Refs, ", "))
 			sb.WriteString("\n")
 		case "alias":
-			fmt.Fprintf(&sb, "%s = alias i8, %s\n", gname(key), r.asI8(e.Refs[0].To))
+			if t := r.findGlob(e.Refs[0].To); t != nil && t.Body == "as1" {
+				fmt.Fprintf(&sb, "%s = alias %s, %s %s\n", gname(key), r.contentType(t), r.ptrType(e.Refs[0].To), gname(e.Refs[0].To))
+			} else {
+				fmt.Fprintf(&sb, "%s = alias i8, %s\n", gname(key), r.asI8(e.Refs[0].To))
+			}
 		case "ifunc":
 			fmt.Fprintf(&sb, "%s = ifunc void (), void ()* ()* %s\n", gname(key), gname(e.Refs[0].To))
 		case "func":
@@ -330,7 +359,11 @@ func Render(src []Entity) string {
 			}
 			fmt.Fprintf(&sb, "%s = %s!{%s}\n", mdID(e.N), d, strings.Join(fs, ", "))
 		case "ulo":
-			fmt.Fprintf(&sb, "uselistorder %s %s, { 1, 0 }\n", r.ptrType(e.Refs[0].To), gname(e.Refs[0].To))
+			if e.Refs[0].RK == "l.baddr" {
+				fmt.Fprintf(&sb, "uselistorder i8* blockaddress(%s, %%%s), { 1, 0 }\n", gname(e.Refs[0].To), e.Refs[0].Aux)
+			} else {
+				fmt.Fprintf(&sb, "uselistorder %s %s, { 1, 0 }\n", r.ptrType(e.Refs[0].To), gname(e.Refs[0].To))
+			}
 		case "ulobb":
 			fmt.Fprintf(&sb, "uselistorder_bb %s, %%%s, { 1, 0 }\n", gname(e.Refs[0].To), e.Refs[0].Aux)
 		}
